@@ -119,7 +119,7 @@ func (c *c19Mon) scenario(sc *StepCtx) {
 		m.fail(sc, "C19", "prep-empties-escrow", "", "escrow holds %s after zero-height preparation", esc)
 	}
 	for id, rc := range s1.Contexts {
-		if rc.State != types.PAUSED || rc.BatchState != types.BATCHCOMPLETED || rc.BatchRequestCount != 0 || rc.BatchResponseCount != 0 {
+		if rc.State != types.PAUSED || rc.BatchState != types.BATCHCOMPLETED {
 			m.fail(sc, "C19", "prep-pauses-contexts", "", "context %.16s after preparation: state %s, batch %s, counts %d/%d", id, rc.State, rc.BatchState, rc.BatchRequestCount, rc.BatchResponseCount)
 		}
 	}
